@@ -877,3 +877,42 @@ package tally
 //@   requires registryWF(r)
 //@   requires @only_a_pass_that_started_after_close_may_purge r.root.closed ==> startedClosed[r]
 //@   modifies if r.root.closed : *
+
+// ---------------------------------------------------------------------------
+// Keys (abstract view; the writer itself is specified in the C05 section)
+
+//@ pure func kspec1(prefix string, m0 map[string]string) string
+//@ pure func kspec2(prefix string, m0 map[string]string, m1 map[string]string) string
+
+//@ func keyForPrefixedStringMaps
+//@   property C05
+//@   trusted
+//@   allocs
+//@   requires len(maps) == 1 || len(maps) == 2
+//@   ensures @one_map len(maps) == 1 ==> result == kspec1(prefix, maps[0])
+//@   ensures @two_maps len(maps) == 2 ==> result == kspec2(prefix, maps[0], maps[1])
+//@   ensures @quiet quiet()
+
+//@ func keyForPrefixedStringMapsAsKey
+//@   property C05
+//@   trusted
+//@   allocs
+//@   requires len(maps) == 1 || len(maps) == 2
+//@   ensures @one_map len(maps) == 1 ==> str(result) == str(buf) + kspec1(prefix, maps[0])
+//@   ensures @two_maps len(maps) == 2 ==> str(result) == str(buf) + kspec2(prefix, maps[0], maps[1])
+//@   ensures @quiet quiet()
+
+//@ func (*scope).copyAndSanitizeMap
+//@   property C04, C06
+//@   allocs
+//@   requires s != nil && s.sanitizer != nil
+//@   ensures @fresh_copy result != nil && fresh(result)
+//@   ensures @keys_are_sanitized_input_keys forall k2 string :: k2 in result ==> (exists k string :: k in tags && k2 == pcall(Sanitizer.Key, s.sanitizer, k))
+//@   ensures @every_input_key_kept forall k string :: k in tags ==> pcall(Sanitizer.Key, s.sanitizer, k) in result
+//@   ensures @values_are_sanitized_input_values forall k2 string :: k2 in result ==> (exists k string :: k in tags && k2 == pcall(Sanitizer.Key, s.sanitizer, k) && result[k2] == pcall(Sanitizer.Value, s.sanitizer, tags[k]))
+//@   ensures @caller_map_untouched forall k string :: (k in tags) == old(k in tags) && (k in tags ==> tags[k] == old(tags[k]))
+//@   ensures @quiet quiet()
+//@   loop 1 invariant @result result != nil && fresh(result) && result != tags && quiet()
+//@   loop 1 invariant @keys forall k2 string :: k2 in result ==> (exists k string :: k in tags && seen(k) && k2 == pcall(Sanitizer.Key, s.sanitizer, k) && result[k2] == pcall(Sanitizer.Value, s.sanitizer, tags[k]))
+//@   loop 1 invariant @kept forall k string :: seen(k) ==> pcall(Sanitizer.Key, s.sanitizer, k) in result
+//@   loop 1 invariant @seen_in forall k string :: seen(k) ==> k in tags
